@@ -3,6 +3,7 @@
   `processing_instruction`, `open_element`), the token loop and `build`: every value of the tree
   returned is `IssuedBy` the parse's own calls.
 -/
+import XotModel.Lemmas.IdMapParseQName
 import XotModel.Lemmas.IdMapParseTree
 
 namespace XotModel
@@ -162,10 +163,12 @@ theorem openElement_all {P : Value → Prop} {b b' : Builder} (h : BuilderAll P 
 theorem step_all {P : Value → Prop} (hT : ∀ s, P (.text s)) (hC : ∀ s, P (.comment s)) {b b' : Builder}
     (h : BuilderAll P b) (t : Token) (hr : b.step t = .ok b') :
     BuilderAll (fun v => P v ∨ IssuedBy b.env (b.stepRegs t) v) b' := by
+  rw [b.stepRegs_eq_core (Builder.step_ok_prefixOk hr)]
+  replace hr := Builder.step_ok_core hr
   cases t with
   | «attribute» pfx loc value sp =>
-    simp only [Builder.step] at hr
-    simp only [Builder.stepRegs]
+    simp only [Builder.stepCore] at hr
+    simp only [Builder.stepRegsCore]
     split at hr
     · rename_i h1
       simp only [h1, if_true]
@@ -179,7 +182,7 @@ theorem step_all {P : Value → Prop} (hT : ∀ s, P (.text s)) (hC : ∀ s, P (
   | text t => exact (text_all hT h t hr).imp (fun _ => Or.inl)
   | cdata t sp => exact (cdata_all hT h t hr).imp (fun _ => Or.inl)
   | elementStart pfx loc sp =>
-    simp only [Builder.step, Step.ok.injEq] at hr
+    simp only [Builder.stepCore, Step.ok.injEq] at hr
     subst hr
     exact (element_all h pfx loc).imp (fun _ => Or.inl)
   | elementEnd ee sp =>
@@ -187,7 +190,7 @@ theorem step_all {P : Value → Prop} (hT : ∀ s, P (.text s)) (hC : ∀ s, P (
     | «open» => exact openElement_all h hr
     | close pfx loc => exact (closeElement_all h pfx loc sp hr).imp (fun _ => Or.inl)
     | empty =>
-      simp only [Builder.step] at hr
+      simp only [Builder.stepCore] at hr
       cases ho : b.openElement with
       | panic => rw [ho] at hr; cases hr
       | err e env => rw [ho] at hr; cases hr
@@ -195,29 +198,29 @@ theorem step_all {P : Value → Prop} (hT : ∀ s, P (.text s)) (hC : ∀ s, P (
         rw [ho] at hr
         exact closeImmediate_all (openElement_all h ho) sp hr
   | comment t sp =>
-    simp only [Builder.step, Step.ok.injEq] at hr
+    simp only [Builder.stepCore, Step.ok.injEq] at hr
     subst hr
     exact (comment_all hC h t).imp (fun _ => Or.inl)
   | pi target content sp =>
-    simp only [Builder.step] at hr
+    simp only [Builder.stepCore] at hr
     split at hr
     · cases hr
     rename_i hres
     simp only [Step.ok.injEq] at hr
     subst hr
-    simp only [Builder.stepRegs, hres, if_false]
+    simp only [Builder.stepRegsCore, hres, if_false]
     exact processingInstruction_all h target content
   | declaration version enc sa sp =>
-    simp only [Builder.step] at hr
+    simp only [Builder.stepCore] at hr
     split at hr
     · cases hr
     · simp only [Step.ok.injEq] at hr
       subst hr
       exact h.imp (fun _ => Or.inl)
-  | dtdStart sp => simp [Builder.step] at hr
-  | dtdEnd sp => simp [Builder.step] at hr
-  | emptyDtd sp => simp [Builder.step] at hr
-  | entityDecl sp => simp [Builder.step] at hr
+  | dtdStart sp => simp [Builder.stepCore] at hr
+  | dtdEnd sp => simp [Builder.stepCore] at hr
+  | emptyDtd sp => simp [Builder.stepCore] at hr
+  | entityDecl sp => simp [Builder.stepCore] at hr
 
 theorem run_issued (ts : List Token) (lexErr : Option Nat) : ∀ (b b' : Builder) (e0 : Env) (tr : List Reg),
     b.env = (e0.regAll tr).1 → BuilderAll (IssuedBy e0 tr) b → b.run ts lexErr = .ok b' →
